@@ -75,6 +75,18 @@ theorem final_state (env : Env) (hpm : env.prematch = true) (m : Nat) :
       rw [loopStep_ess] at h
       exact h
 
+/-- CONVERGENCE = termination + final state: from any state with a pending event, once handlers stop
+    failing, within `bound env s` turns nothing is pending, the last-handled state is the essence, and a
+    further event would cause no write. -/
+theorem converges (env : Env) (wf : WF env) (hfin : AllFinal env) (hpm : env.prematch = true)
+    (s : State E) (hu : UniformOn env.owned s.P) (hp : s.pending = true) :
+    ∃ m, m ≤ bound env s ∧ (iter env m s).pending = false ∧ (iter env m s).base = some s.ess ∧
+      (loopStep env { iter env m s with pending := true }).writes = (iter env m s).writes ∧
+      (loopStep env { iter env m s with pending := true }).pending = false := by
+  obtain ⟨m, hm, hq⟩ := terminates env wf hfin s hu
+  obtain ⟨h1, _, h3, h4, _⟩ := final_state env hpm m s hp hq
+  exact ⟨m, hm, hq, h1, h3, h4⟩
+
 /-- Once quiescent, always quiescent: no turn changes anything (in particular `writes`). -/
 theorem quiescent_stays (env : Env) (n : Nat) (t : State E) (h : t.pending = false) :
     iter env n t = t :=
